@@ -2,8 +2,9 @@ from propcommon import *  # noqa
 
 CFG = dict(
         level="proof",
-        lean_modules=["ElysModel.Props.C07"],
-        props_files=["ElysModel/Props/C07.lean"],
+        lean_modules=["ElysModel.Props.C07", "ElysModel.Props.C07Src"],
+        pre_cmds=[GO2LEAN],
+        props_files=["ElysModel/Props/C07.lean", "ElysModel/Props/C07Src.lean"],
         runs=[dict(mode="c07", n_quick=1200, n_thorough=12000, shards_quick=8, shards_thorough=14),
               dict(hist_run(nq=150, nt=400, sq=6, st=10, focus="lp."), driver="C07H", env_quick={"VERIF_HISTS": "1", "VERIF_FOCUS": "lp.", "VERIF_GOVSS": "1"}, env_thorough={"VERIF_HISTS": "3", "VERIF_FOCUS": "lp.", "VERIF_GOVSS": "1"})],
         rule="op sequences (bond / unbond / explicit bond-then-unbond-the-minted-shares pairs / keeper Borrow / Repay / interest accrual "
@@ -12,10 +13,10 @@ CFG = dict(
              "succeeded; distinct = distinct (op, arguments, result, observed vault state and balances) tuples; plus governance parameter updates drafted some ops earlier; "
              "plus history mode on the real app (driver C07H: leveraged-LP focused histories through FinalizeBlock with the real begin-blocker, interest records and rate model, "
              "governance of the vault's epoch length; an evaluation is one block)",
-        trusted_base=COMMON_TB + ["msg server / keeper driven directly with ctx.WithBlockTime and CacheContext per op (not through FinalizeBlock); "
+        trusted_base=COMMON_TB + [SRC_TB, "msg server / keeper driven directly with ctx.WithBlockTime and CacheContext per op (not through FinalizeBlock); "
                                   "no per-block interest records exist in that context, so GetInterest takes its Params.InterestRate branch (modelled); "
                                   "the 'gift' op edits Params.TotalValue and the vault balance together (a harness intervention, not a code path)"],
-        assumptions=["theorems assume 0 < supply <= TotalValue (rate >= 1) and, for unbond, cash <= TotalValue (C06); amounts positive (ValidateBasic)",
+        assumptions=[SRC_ASSUME, "theorems assume 0 < supply <= TotalValue (rate >= 1) and, for unbond, cash <= TotalValue (C06); amounts positive (ValidateBasic)",
                      "one borrower record; leveragelp's own MaxLeverageRatio test is outside Borrow and not part of C07"],
         explanation="Theorems C07.* over the vault model (rate, bond, unbond, borrow on raw LegacyDec integers): fair issue/redeem, round trip <= a + one share's "
                     "worth, other holders' redeemable value, bounded rate fall (with witnesses), the 90% cap as coded; model = code checked by "
